@@ -84,7 +84,11 @@ func c08Calls(format string, data []byte) []c08Call {
 		calls := []c08Call{
 			{"UnmarshalWKB", func() (geom.Geometry, bool, error) { return asG(geom.UnmarshalWKB(data)) }, true},
 			{"UnmarshalWKB(NoValidate)", func() (geom.Geometry, bool, error) { return asG(geom.UnmarshalWKB(data, nv)) }, false},
-			{"Geometry.Scan([]byte)", func() (geom.Geometry, bool, error) { var g geom.Geometry; err := g.Scan(data); return g, err == nil, err }, true},
+			{"Geometry.Scan([]byte)", func() (geom.Geometry, bool, error) {
+				var g geom.Geometry
+				err := g.Scan(data)
+				return g, err == nil, err
+			}, true},
 			{"Geometry.Scan(string)", func() (geom.Geometry, bool, error) {
 				var g geom.Geometry
 				err := g.Scan(string(data))
@@ -95,13 +99,21 @@ func c08Calls(format string, data []byte) []c08Call {
 				err := g.Scan(data)
 				return g.Geometry, err == nil, err
 			}, true},
-			{"Point.Scan", func() (geom.Geometry, bool, error) { var x geom.Point; err := x.Scan(data); return x.AsGeometry(), err == nil, err }, true},
+			{"Point.Scan", func() (geom.Geometry, bool, error) {
+				var x geom.Point
+				err := x.Scan(data)
+				return x.AsGeometry(), err == nil, err
+			}, true},
 			{"LineString.Scan", func() (geom.Geometry, bool, error) {
 				var x geom.LineString
 				err := x.Scan(data)
 				return x.AsGeometry(), err == nil, err
 			}, true},
-			{"Polygon.Scan", func() (geom.Geometry, bool, error) { var x geom.Polygon; err := x.Scan(data); return x.AsGeometry(), err == nil, err }, true},
+			{"Polygon.Scan", func() (geom.Geometry, bool, error) {
+				var x geom.Polygon
+				err := x.Scan(data)
+				return x.AsGeometry(), err == nil, err
+			}, true},
 			{"MultiPoint.Scan", func() (geom.Geometry, bool, error) {
 				var x geom.MultiPoint
 				err := x.Scan(data)
@@ -128,7 +140,10 @@ func c08Calls(format string, data []byte) []c08Call {
 		return []c08Call{
 			{"UnmarshalTWKB", func() (geom.Geometry, bool, error) { return asG(geom.UnmarshalTWKB(data)) }, true},
 			{"UnmarshalTWKB(NoValidate)", func() (geom.Geometry, bool, error) { return asG(geom.UnmarshalTWKB(data, nv)) }, false},
-			{"UnmarshalTWKBSize", func() (geom.Geometry, bool, error) { _, _, err := geom.UnmarshalTWKBSize(data); return geom.Geometry{}, false, err }, false},
+			{"UnmarshalTWKBSize", func() (geom.Geometry, bool, error) {
+				_, _, err := geom.UnmarshalTWKBSize(data)
+				return geom.Geometry{}, false, err
+			}, false},
 			{"UnmarshalTWKBIDList", func() (geom.Geometry, bool, error) {
 				_, _, err := geom.UnmarshalTWKBIDList(data)
 				return geom.Geometry{}, false, err
@@ -841,8 +856,8 @@ func c08Gen(t *rapid.T, cx *h.Ctx) C08Case {
 
 func TestC08(t *testing.T) {
 	p := h.Prop[C08Case]{
-		ID:   "C08",
-		Rule: "fault enumeration + search. Enumerated (complete in the thorough tier, every 7th case in quick): every truncation, byte substitution (all 256 values at header/count/type bytes, boundary values elsewhere), count/varint overwrite, WKT token edit and hostile numeral, GeoJSON structural edit over a corpus of valid encodings of 17 shapes x 4 coordinate types in WKB (3 byte-order patterns), TWKB (4 header sets), WKT, GeoJSON(+Feature, FeatureCollection). Random (rapid): arbitrary bytes up to 64 KiB, plausible header + random tail, multi-edits of corpus entries, generated structures with one count overwritten, deep nesting/repetition. Each input goes through every decoder entry point of its format (validating and NoValidate, Scan/UnmarshalJSON adapters, TWKB header readers): no panic, no process death (the shard runs under ulimit -v and journals the in-flight input), heap allocation <= 1 MiB + 2048 x len(input) per call, validating decoders return only geometries that pass Validate, every returned geometry re-encodes in WKT/WKB/GeoJSON/TWKB without panic. non-trivial = the input passes the decoder's first structural check (byte order + type code / type nibble / leading keyword / JSON object with a type member)",
+		ID:          "C08",
+		Rule:        "fault enumeration + search. Enumerated (complete in the thorough tier, every 7th case in quick): every truncation, byte substitution (all 256 values at header/count/type bytes, boundary values elsewhere), count/varint overwrite, WKT token edit and hostile numeral, GeoJSON structural edit over a corpus of valid encodings of 17 shapes x 4 coordinate types in WKB (3 byte-order patterns), TWKB (4 header sets), WKT, GeoJSON(+Feature, FeatureCollection). Random (rapid): arbitrary bytes up to 64 KiB, plausible header + random tail, multi-edits of corpus entries, generated structures with one count overwritten, deep nesting/repetition. Each input goes through every decoder entry point of its format (validating and NoValidate, Scan/UnmarshalJSON adapters, TWKB header readers): no panic, no process death (the shard runs under ulimit -v and journals the in-flight input), heap allocation <= 1 MiB + 2048 x len(input) per call, validating decoders return only geometries that pass Validate, every returned geometry re-encodes in WKT/WKB/GeoJSON/TWKB without panic. non-trivial = the input passes the decoder's first structural check (byte order + type code / type nibble / leading keyword / JSON object with a type member)",
 		Assumptions: []string{"allocation is measured with runtime/metrics /gc/heap/allocs:bytes (single-threaded shard) and every over-budget candidate is re-measured with runtime.ReadMemStats on an identical second call; the cheap counter may under-report up to ~2 MB of small allocations", "process death is detected by the driver from the shard's exit status and the in-flight journal", "slow inputs are not violations (C08 has no time clause)"},
 		Gen:         c08Gen,
 		Check:       c08Check,
